@@ -29,11 +29,12 @@ VARIABLES
   tag,    \* [repo -> [tags -|-> digest]]
   sess,   \* [handle -|-> [repo, alg, expect, parts, off, open]]  upload sessions ever created (open or gone)
   nsess,  \* number of session handles handed out so far ("s1", "s2", ...)
+  clk,    \* [now, timer]: virtual time in seconds and, per repository, when the age timer of its session cache is due (-1: none)
   young,  \* [repo -> SUBSET digests]       blobs younger than the grace period (for collection)
   base,   \* [blob, man, tag]: what the directory below a memory store holds (a memory store restarts from it)
   resp    \* predicted response of the last action (output only)
 
-vars == <<env, blob, man, tag, sess, nsess, young, base, resp>>
+vars == <<env, blob, man, tag, sess, nsess, clk, young, base, resp>>
 
 -----------------------------------------------------------------------------
 \* catalogue access
@@ -90,7 +91,16 @@ Refused     == [R0 EXCEPT !.class = "refused"]
 \* upload sessions
 Handle(n)  == "s" \o ToString(n)
 OpenIn(r)  == {h \in DOMAIN sess : sess[h].open /\ sess[h].repo = r}
-NoSess     == [parts |-> <<>>, off |-> 0, open |-> FALSE, repo |-> "", alg |-> "", expect |-> ""]
+NoSess     == [parts |-> <<>>, off |-> 0, open |-> FALSE, repo |-> "", alg |-> "", expect |-> "", used |-> 0]
+\* Sessions live in a bounded cache per repository (internal/cache): every request that finds the session refreshes its
+\* last use; an entry unused for the grace period (Age) expires when the cache's age timer fires; when a repository
+\* holds more than uploadMax entries the least recently used are evicted until MinCount remain.  Time is virtual: every
+\* operation takes one second (so last uses are totally ordered), Tick moves the clock and lets due timers fire.
+SessAge    == IF "grace" \in DOMAIN Cfg /\ Cfg.grace THEN 3600 ELSE 0
+SessMaxAge == SessAge + (SessAge \div 10)
+UploadMax  == IF "uploadMax" \in DOMAIN Cfg THEN Cfg.uploadMax ELSE 0
+SessMin    == IF UploadMax = 0 THEN 0 ELSE IF (9 * UploadMax) \div 10 < 1 THEN 1 ELSE (9 * UploadMax) \div 10
+Touch(s, r, h) == IF Cfg.push /\ h \in DOMAIN s /\ s[h].open /\ s[h].repo = r THEN [s EXCEPT ![h].used = clk.now] ELSE s
 PartLen(c, p) == IF p = "e" THEN 0 ELSE Cat.cuts[c][p]
 
 \* the content id a sequence of accepted parts amounts to ("junk" if it is no whole catalogue content)
@@ -146,7 +156,7 @@ UpPost(r, dig, alg, mount, from, chunk) ==
        LET h == Handle(nsess + 1) IN
        /\ nsess' = nsess + 1
        /\ sess' = Upd(sess, h, [repo |-> r, alg |-> IF alg = "" THEN "sha256" ELSE alg,
-                                expect |-> mount, parts |-> <<>>, off |-> 0, open |-> TRUE])
+                                expect |-> mount, parts |-> <<>>, off |-> 0, open |-> TRUE, used |-> clk.now])
        /\ resp' = [Ok(202) EXCEPT !.sess = h, !.off = 0]
        /\ UNCHANGED <<blob, young>>
 
@@ -158,15 +168,15 @@ UpPatch(r, h, cr, st, chunk) ==
   /\ UNCHANGED <<blob, nsess, young>>
   /\ IF SessUsable(r, h) /\ InOrder(cr, st)
      THEN LET n == PartLen(chunk.c, chunk.p) IN
-          /\ sess' = [sess EXCEPT ![h].parts = Append(@, <<chunk.c, chunk.p>>), ![h].off = @ + n]
+          /\ sess' = [sess EXCEPT ![h].parts = Append(@, <<chunk.c, chunk.p>>), ![h].off = @ + n, ![h].used = clk.now]
           /\ resp' = [Ok(202) EXCEPT !.off = sess[h].off + n]
-     ELSE resp' = Refused /\ UNCHANGED sess
+     ELSE resp' = Refused /\ sess' = Touch(sess, r, h)
 
 \* PUT /v2/<r>/blobs/uploads/<id>?digest=  (blob.go: blobUploadPut)
 UpPut(r, h, cr, st, dig, chunk) ==
   /\ UNCHANGED <<nsess>>
   /\ IF ~(SessUsable(r, h) /\ InOrder(cr, st) /\ WellFormed(dig))
-     THEN resp' = Refused /\ UNCHANGED <<blob, sess, young>>
+     THEN resp' = Refused /\ sess' = Touch(sess, r, h) /\ UNCHANGED <<blob, young>>
      ELSE LET data == Append(sess[h].parts, <<chunk.c, chunk.p>>) IN
           /\ sess' = [sess EXCEPT ![h].open = FALSE]          \* completed or failed verification: the session is gone
           /\ IF DataIs(data, dig) /\ sess[h].expect \in {"", dig}
@@ -177,7 +187,8 @@ UpPut(r, h, cr, st, dig, chunk) ==
 
 \* GET /v2/<r>/blobs/uploads/<id>  (blob.go: blobUploadGet)
 UpGet(r, h) ==
-  /\ UNCHANGED <<blob, sess, nsess, young>>
+  /\ UNCHANGED <<blob, nsess, young>>
+  /\ sess' = Touch(sess, r, h)
   /\ resp' = IF SessUsable(r, h) THEN [Ok(204) EXCEPT !.off = sess[h].off] ELSE Refused
 
 \* DELETE /v2/<r>/blobs/uploads/<id>  (blob.go: blobUploadDelete)
@@ -319,6 +330,39 @@ RefsGet(r, S, filter) ==
   /\ resp' = IF Cfg.referrers THEN Ok(200) ELSE Refused
 
 -----------------------------------------------------------------------------
+\* Tick(n): n seconds pass and every due age timer fires (cache.go: pruneAge): sessions of that repository not used
+\* for more than SessAge are gone; the timer is set again for the oldest session that stays.
+ExpiredAt(r, t) == {h \in OpenIn(r) : sess[h].used < t - SessAge}
+Fires(r, t) == SessAge > 0 /\ clk.timer[r] # -1 /\ clk.timer[r] <= t
+MinUsed(S) == CHOOSE u \in {sess[h].used : h \in S} : \A h \in S : u <= sess[h].used
+Tick(n) ==
+  LET t == clk.now + n
+      gone == UNION {IF Fires(r, t) THEN ExpiredAt(r, t) ELSE {} : r \in Repos}
+  IN /\ sess' = [h \in DOMAIN sess |-> IF h \in gone THEN [sess[h] EXCEPT !.open = FALSE] ELSE sess[h]]
+     /\ clk' = [now |-> t,
+                timer |-> [r \in Repos |-> IF ~Fires(r, t) THEN clk.timer[r]
+                                            ELSE LET rest == OpenIn(r) \ ExpiredAt(r, t) IN
+                                                 IF rest = {} THEN -1 ELSE t + (SessMaxAge - (t - MinUsed(rest)))]]
+     /\ resp' = Ok(0)
+     /\ UNCHANGED <<env, base, blob, man, tag, nsess, young>>
+
+\* Evict(ev): a count prune of the session caches ran (cache.go: pruneCount, spawned by any blob creation that finds the
+\* cache over its limit) and removed the sessions ev.  The step is bound to what was observed; EvictOK is the policy.
+EvictOK(ev) ==
+  /\ ev \subseteq {h \in DOMAIN sess : sess[h].open}
+  /\ \A r \in Repos : LET E == ev \cap OpenIn(r) IN
+        E # {} => /\ UploadMax > 0
+                  /\ \A h \in E, k \in OpenIn(r) \ E : sess[h].used < sess[k].used      \* least recently used first
+                  /\ Cardinality(OpenIn(r) \ E) = SessMin                              \* down to the lower mark, not below
+EvictedOf(op) == IF "evicted" \in DOMAIN op THEN {op.evicted[i] : i \in DOMAIN op.evicted} ELSE {}
+Evict(ev) ==
+  /\ sess' = [h \in DOMAIN sess |-> IF h \in ev THEN [sess[h] EXCEPT !.open = FALSE] ELSE sess[h]]
+  /\ resp' = Ok(0)
+  /\ UNCHANGED <<env, base, blob, man, tag, nsess, young>>
+\* the bound: once no prune is pending no repository holds more sessions than configured
+WithinBound == UploadMax > 0 => \A r \in Repos : Cardinality(OpenIn(r)) <= UploadMax
+
+-----------------------------------------------------------------------------
 \* Restart: close the server and open a new one on the same directory.  Upload sessions do not survive; a memory
 \* store (pure, or layered over a directory it never writes to) starts again from what that directory holds (base),
 \* a directory store presents the same content (the collection it runs on Close is bound by the trace specification).
@@ -428,10 +472,11 @@ InitState ==
   /\ base = [blob |-> [r \in Repos |-> {}], man |-> [r \in Repos |-> <<>>], tag |-> [r \in Repos |-> <<>>]]
   /\ sess = <<>>
   /\ nsess = 0
+  /\ clk = [now |-> 0, timer |-> [r \in Repos |-> -1]]
   /\ resp = R0
 
 \* dispatch on an operation record (the JSON shape the harness logs and TLC generates)
-Do(op) ==
+Do0(op) ==
   CASE op.op = "UpPost"   -> UpPost(op.repo, op.dig, op.alg, op.mount, op.from, op.chunk) /\ UNCHANGED <<env, base, man, tag>>
     [] op.op = "UpPatch"  -> UpPatch(op.repo, op.sess, op.cr, op.st, op.chunk) /\ UNCHANGED <<env, base, man, tag>>
     [] op.op = "UpPut"    -> UpPut(op.repo, op.sess, op.cr, op.st, op.dig, op.chunk) /\ UNCHANGED <<env, base, man, tag>>
@@ -448,7 +493,17 @@ Do(op) ==
     [] op.op = "GCPass"   -> GCPass /\ UNCHANGED <<env, base>>
     [] op.op = "Age"      -> Age(op.repo) /\ UNCHANGED <<env, base>>
     [] op.op = "Reconf"   -> Reconf(op.newcfg)
+    [] op.op = "Evict"    -> Evict(EvictedOf(op))
     [] OTHER              -> UNCHANGED <<env, base, blob, man, tag, sess, nsess, young>> /\ resp' = R0
+
+\* every operation but Tick takes one second; the age timer of a repository's session cache exists exactly while the
+\* repository has sessions: armed (now + MaxAge) by the first, stopped with the last
+ClockStep ==
+  clk' = [now |-> clk.now + 1,
+          timer |-> [r \in Repos |-> IF {h \in DOMAIN sess' : sess'[h].open /\ sess'[h].repo = r} = {} THEN -1
+                                      ELSE IF r \notin DOMAIN clk.timer \/ clk.timer[r] = -1 THEN clk.now + SessMaxAge
+                                      ELSE clk.timer[r]]]
+Do(op) == IF op.op = "Tick" THEN Tick(op.ni) ELSE (Do0(op) /\ ClockStep)
 
 -----------------------------------------------------------------------------
 \* Invariants of the model (checked exhaustively in MCRegistry)
